@@ -28,3 +28,5 @@ class Ob:
     describe: Optional[Callable] = None      # (**rep) -> dict with the text/options a representative denotes
     tiers: tuple = ('quick', 'thorough')
     functions_hint: list = field(default_factory=list)
+    stub_optional: bool = False    # obligation rests on a stub: if no path can be confirmed (stub contract broken by a refactoring) it is INCONCLUSIVE, not an error
+    native_body: bool = False      # everything after the selectors runs under @native (tracer off, concrete values): a confirmed path IS a native run, the same-process native re-run is skipped
